@@ -22,32 +22,6 @@ vars == <<S, hist, nm>>
 PSubs == [p1 |-> PSubs1, p2 |-> PSubs2]
 Cfg == [router |-> Router, idfn |-> IdFn, peers |-> NPeers, psubs |-> PSubs]
 
-V(v, inl, to, conc) == [v |-> v, inl |-> inl, to |-> to, conc |-> conc]
-ValDef(n) ==
-    CASE n = "accept" -> V("accept", FALSE, 0, 0)
-      [] n = "reject" -> V("reject", FALSE, 0, 0)
-      [] n = "ignore" -> V("ignore", FALSE, 0, 0)
-      [] n = "bad" -> V("bad", FALSE, 0, 0)
-      [] n = "acceptInl" -> V("accept", TRUE, 0, 0)
-      [] n = "rejectInl" -> V("reject", TRUE, 0, 0)
-      [] n = "rejectTo" -> V("reject", FALSE, 300, 0)
-      [] n = "acceptTo" -> V("accept", FALSE, 700, 3)
-      [] n = "block1" -> V("block", FALSE, 0, 1)
-      [] n = "block2" -> V("block", FALSE, 0, 2)
-
-J(t, jo) == [D EXCEPT !.o = "join", !.t = t, !.opt = jo]
-ProDef(n) ==
-    CASE n = "none" -> <<>>
-      [] n = "joinA" -> <<J("A", "")>>
-      [] n = "joinAB" -> <<J("A", ""), J("B", "")>>
-      [] n = "closedA" -> <<J("A", ""), [D EXCEPT !.o = "close", !.h = 1]>>
-      [] n = "rejoinA" -> <<J("A", ""), [D EXCEPT !.o = "close", !.h = 1], J("A", "")>>
-      [] n = "subA1" -> <<J("A", ""), [D EXCEPT !.o = "sub", !.h = 1, !.cap = 1]>>
-      [] n = "subA12" -> <<J("A", ""), [D EXCEPT !.o = "sub", !.h = 1, !.cap = 1], [D EXCEPT !.o = "sub", !.h = 1, !.cap = 2]>>
-      [] n = "hiddenA" -> <<[D EXCEPT !.o = "psub", !.t = "A"]>>
-      [] n = "fanA" -> <<J("A", "fan")>>
-      [] n = "relayA" -> <<J("A", ""), [D EXCEPT !.o = "relay", !.h = 1]>>
-      [] n = "KA" -> <<J("A", "K")>>
 Pro == ProDef(ProName)
 
 RECURSIVE Run(_, _, _)
@@ -104,12 +78,6 @@ Next == /\ Len(hist) < Len(Pro) + L
              /\ nm' = IF o.m # "" /\ o.m \notin (LastLocal \cup UNION {LastRemote(t) : t \in Topics}) THEN nm + 1 ELSE nm
 
 Spec == Init /\ [][Next]_vars
-
-\* compact encoding of an operation (python turns it back into a record; defaults are dropped)
-B(b) == IF b THEN "1" ELSE "0"
-Enc(o) == o.o \o "|" \o o.t \o "|" \o ToString(o.h) \o "|" \o ToString(o.s) \o "|" \o ToString(o.r) \o "|" \o ToString(o.e) \o "|"
-          \o ToString(o.cap) \o "|" \o o.m \o "|" \o o.mode \o "|" \o o.v \o "|" \o B(o.inl) \o "|" \o ToString(o.to) \o "|"
-          \o ToString(o.conc) \o "|" \o o.opt \o "|" \o o.p \o "|" \o B(o.pv)
 
 Scn == [cfg |-> [router |-> Router, idfn |-> IdFn, peers |-> NPeers,
                  psubs |-> [p1 |-> IF "p1" \in DOMAIN PSubs THEN SetToSeqU(PSubs["p1"]) ELSE <<>>,
